@@ -115,8 +115,15 @@ func crashScenario(c c03Cfg, b zzvrt.Bounds, faultOps ...string) *zzvrt.Scenario
 			if x.Outcome != "" && x.Outcome != "crash" {
 				return x.Outcome, []zzvrt.Violation{{Clause: "no-" + strings.SplitN(x.Outcome, ":", 2)[0], Key: key, Detail: x.Outcome}}
 			}
+			if c.level != "" {
+				key += "/level=" + c.level
+			}
+			if o.err == "" && ro.err == "" && len(lineOf) != len(all) {
+				// the reference run (one thread, all events, run to completion, Destroy) did not leave every line in the target
+				return "reference-incomplete", []zzvrt.Violation{{Clause: "acknowledged-line-missing", Key: key, Detail: fmt.Sprintf("one thread logging %d events at enabled levels and running to completion left the lines of only %d of them in the target (target=%q)", len(all), len(lineOf), crashTarget(rx, c))}}
+			}
 			if o.err != "" || len(lineOf) != len(all) {
-				return o.err, []zzvrt.Violation{{Clause: "setup", Key: key, Detail: fmt.Sprintf("err=%q reference lines=%d/%d", o.err, len(lineOf), len(all))}}
+				return o.err, []zzvrt.Violation{{Clause: "setup", Key: key, Detail: fmt.Sprintf("err=%q reference err=%q reference lines=%d/%d", o.err, ro.err, len(lineOf), len(all))}}
 			}
 			content := crashTarget(x, c)
 			// lines whose own write call was refused by an injected fault are excused
@@ -132,6 +139,16 @@ func crashScenario(c c03Cfg, b zzvrt.Bounds, faultOps ...string) *zzvrt.Scenario
 				if !strings.Contains(content, lineOf[a]) && !refused(a) {
 					v = append(v, zzvrt.Violation{Clause: "acknowledged-line-missing", Key: key,
 						Detail: fmt.Sprintf("outcome=%q: call for %q had returned but its line is not in the target (target=%q)", x.Outcome, a, content)})
+				}
+			}
+			if c.sink == "rolling-logger+separate" {
+				// the target of an event at WARN or above is the .wf file, of the others the plain file
+				for _, ev := range all {
+					for _, name := range x.FS.List("/logs") {
+						if name != "console.out" && strings.Contains(string(x.FS.Nodes["/logs/"+name].Data), lineOf[ev.payload]) && strings.Contains(name, ".wf.") != ev.err {
+							v = append(v, zzvrt.Violation{Clause: "line-in-the-wrong-file", Key: key, Detail: fmt.Sprintf("the line of %q (logged at ERROR: %v) is in %s", ev.payload, ev.err, name)})
+						}
+					}
 				}
 			}
 			if x.Outcome == "" {
@@ -171,6 +188,18 @@ func init() {
 					b.Env[zzvrt.SeamTick] = 1
 				}
 				return crashScenario(c03Cfg{layout: layout, sink: sink, threads: mixed}, b)
+			})
+		}
+	}
+	// a level on the way: the rolling-file logger with its own level, a logger-level layout in front of two references
+	// that carry a level (everything logged here is at or above it: nothing may be held back or dropped)
+	for _, layout := range []string{"TextLayout", "JSONLayout"} {
+		for _, sk := range [][2]string{{"rolling-logger", "INFO"}, {"rolling-logger+separate", "info~fatal"}, {"fanout", "INFO"}, {"fanout", "DEBUG~PANIC"}} {
+			layout, sk := layout, sk
+			register("C20", fmt.Sprintf("c20/%s/level=%s/%s/1x4-info+error", sk[0], sk[1], layout), "qt", func(tier string) *zzvrt.Scenario {
+				b := zzvrt.Bounds{Preempt: 1, Horizon: 5000}
+				b.Env[zzvrt.SeamCrash] = 1
+				return crashScenario(c03Cfg{layout: layout, sink: sk[0], threads: mixed, level: sk[1]}, b)
 			})
 		}
 	}
